@@ -1,0 +1,324 @@
+//go:build verif
+
+package zygo
+
+// Verification instrumentation, compiled only with -tags verif.
+// Read-only accessors for out-of-package checkers plus the
+// step hook called from the VM run loop.
+
+import (
+	"errors"
+	"sort"
+	"sync"
+	"sync/atomic"
+)
+
+// ErrVerifBudget is returned by Run when the step budget is used up.
+var ErrVerifBudget = errors.New("verif: step budget exhausted")
+
+var verifBudgetOn int32
+var verifBudget int64
+var verifSteps int64
+
+// VerifSetBudget arms the process-wide step budget; n < 0 disarms it.
+func VerifSetBudget(n int64) {
+	if n < 0 {
+		atomic.StoreInt32(&verifBudgetOn, 0)
+		return
+	}
+	atomic.StoreInt64(&verifBudget, n)
+	atomic.StoreInt32(&verifBudgetOn, 1)
+}
+
+// VerifBudgetLeft reports the remaining budget.
+func VerifBudgetLeft() int64 { return atomic.LoadInt64(&verifBudget) }
+
+// VerifSteps reports the number of VM steps executed so far in this process.
+func VerifSteps() int64 { return atomic.LoadInt64(&verifSteps) }
+
+// VerifTracer, when non-nil, is called before every instruction.
+var VerifTracer func(env *Zlisp, fn *SexpFunction, pc int, instr Instruction)
+
+var verifSeenMu sync.Mutex
+var verifSeenOn bool
+var verifSeen map[*SexpFunction]int
+var verifSeenOrder []*SexpFunction
+
+// VerifCollectFunctions turns recording of executed functions on or off.
+func VerifCollectFunctions(on bool) {
+	verifSeenMu.Lock()
+	verifSeenOn = on
+	verifSeen = make(map[*SexpFunction]int)
+	verifSeenOrder = nil
+	verifSeenMu.Unlock()
+}
+
+// VerifSeenFunctions returns the functions executed since the last call.
+func VerifSeenFunctions() []*SexpFunction {
+	verifSeenMu.Lock()
+	r := verifSeenOrder
+	verifSeen = make(map[*SexpFunction]int)
+	verifSeenOrder = nil
+	verifSeenMu.Unlock()
+	return r
+}
+
+func verifStep(env *Zlisp, instr Instruction) error {
+	atomic.AddInt64(&verifSteps, 1)
+	if VerifTracer != nil {
+		VerifTracer(env, env.curfunc, env.pc, instr)
+	}
+	if verifSeenOn {
+		verifSeenMu.Lock()
+		// the body of __main grows; remember the longest length seen
+		if n, ok := verifSeen[env.curfunc]; !ok {
+			verifSeen[env.curfunc] = len(env.curfunc.fun)
+			verifSeenOrder = append(verifSeenOrder, env.curfunc)
+		} else if n != len(env.curfunc.fun) {
+			verifSeen[env.curfunc] = len(env.curfunc.fun)
+		}
+		verifSeenMu.Unlock()
+	}
+	if atomic.LoadInt32(&verifBudgetOn) != 0 {
+		if atomic.AddInt64(&verifBudget, -1) < 0 {
+			return ErrVerifBudget
+		}
+	}
+	return nil
+}
+
+// VerifDepths returns the sizes of the data, scope, address and loop stacks.
+func (env *Zlisp) VerifDepths() (data, scope, addr, loop int) {
+	return env.datastack.Size(), env.linearstack.Size(), env.addrstack.Size(), env.loopstack.Size()
+}
+
+// VerifPC returns the program counter, the size of the current function
+// and whether the current function is the main function.
+func (env *Zlisp) VerifPC() (pc, size int, inMain bool) {
+	return env.pc, env.CurrentFunctionSize(), env.curfunc == env.mainfunc
+}
+
+// VerifCurFuncName names the function the VM is in.
+func (env *Zlisp) VerifCurFuncName() string {
+	if env.curfunc == nil {
+		return ""
+	}
+	return env.curfunc.name
+}
+
+// VerifMainFunction returns the top-level function.
+func (env *Zlisp) VerifMainFunction() *SexpFunction { return env.mainfunc }
+
+// VerifNextSymbol returns the symbol counter of this interpreter.
+func (env *Zlisp) VerifNextSymbol() int { return env.nextsymbol }
+
+// VerifSymtab returns a copy of the name->number table.
+func (env *Zlisp) VerifSymtab() map[string]int {
+	m := make(map[string]int, len(env.symtable))
+	for k, v := range env.symtable {
+		m[k] = v
+	}
+	return m
+}
+
+// VerifRevSymtab returns a copy of the number->name table.
+func (env *Zlisp) VerifRevSymtab() map[int]string {
+	m := make(map[int]string, len(env.revsymtable))
+	for k, v := range env.revsymtable {
+		m[k] = v
+	}
+	return m
+}
+
+// VerifGlobalNames lists the names bound in the global scope, sorted.
+func (env *Zlisp) VerifGlobalNames() []string {
+	glob := env.linearstack.elements[0].(*Scope)
+	r := make([]string, 0, len(glob.Map))
+	for num := range glob.Map {
+		r = append(r, env.revsymtable[num])
+	}
+	sort.Strings(r)
+	return r
+}
+
+// VerifGlobalKind classifies a global binding.
+func (env *Zlisp) VerifGlobalKind(name string) string {
+	num, ok := env.symtable[name]
+	if !ok {
+		return "unbound"
+	}
+	glob := env.linearstack.elements[0].(*Scope)
+	x, ok := glob.Map[num]
+	if !ok {
+		return "unbound"
+	}
+	switch f := x.(type) {
+	case *SexpFunction:
+		switch {
+		case f.isBuilder:
+			return "builder"
+		case f.user:
+			return "gofunc"
+		}
+		return "closure"
+	}
+	return "value"
+}
+
+// VerifMacroNames lists the macro names, sorted.
+func (env *Zlisp) VerifMacroNames() []string {
+	r := make([]string, 0, len(env.macros))
+	for num := range env.macros {
+		r = append(r, env.revsymtable[num])
+	}
+	sort.Strings(r)
+	return r
+}
+
+// VerifBuiltinNames lists the names in the builtin table, sorted.
+func (env *Zlisp) VerifBuiltinNames() []string {
+	r := make([]string, 0, len(env.builtins))
+	for num := range env.builtins {
+		r = append(r, env.revsymtable[num])
+	}
+	sort.Strings(r)
+	return r
+}
+
+// VerifParserState exposes the lexer/parser residue that survives a call.
+func (env *Zlisp) VerifParserState() (bufLen, queuedTokens, pendingStreams int, lexState int) {
+	p := env.parser
+	return p.lexer.buffer.Len(), len(p.lexer.tokens), len(p.lexer.next), int(p.lexer.state)
+}
+
+// VerifParser returns the interpreter's own parser.
+func (env *Zlisp) VerifParser() *Parser { return env.parser }
+
+// VerifInstr is a structured view of one instruction.
+type VerifInstr struct {
+	Op    string        `json:"op"`
+	N     int           `json:"n"`           // jump offset / nargs / location / scopesToPop
+	B     bool          `json:"b,omitempty"` // branch direction
+	Sym   string        `json:"sym,omitempty"`
+	Off   int           `json:"off,omitempty"` // loop-relative target offset for break/continue
+	Loop  string        `json:"loop,omitempty"`
+	Text  string        `json:"text"`
+	Sub   *VerifListing `json:"sub,omitempty"` // body of a closure created here
+	Nargs int           `json:"nargs,omitempty"`
+}
+
+// VerifListing is a structured view of one compiled function.
+type VerifListing struct {
+	Name    string       `json:"name"`
+	Nargs   int          `json:"nargs"`
+	Varargs bool         `json:"varargs"`
+	Orig    string       `json:"orig,omitempty"`
+	Instrs  []VerifInstr `json:"instrs"`
+}
+
+// VerifListing dumps the compiled body of a function (nil for Go functions).
+func (sf *SexpFunction) VerifListing() *VerifListing {
+	return verifListing(sf, map[*SexpFunction]bool{})
+}
+
+// VerifName returns the function's name.
+func (sf *SexpFunction) VerifName() string { return sf.name }
+
+func verifListing(sf *SexpFunction, seen map[*SexpFunction]bool) *VerifListing {
+	if sf == nil || sf.user {
+		return nil
+	}
+	l := &VerifListing{Name: sf.name, Nargs: sf.nargs, Varargs: sf.varargs}
+	if sf.orig != nil {
+		l.Orig = sf.orig.SexpString(nil)
+	}
+	if seen[sf] {
+		return l
+	}
+	seen[sf] = true
+	for i, in := range sf.fun {
+		v := VerifInstr{Text: in.InstrString()}
+		switch t := in.(type) {
+		case JumpInstr:
+			v.Op, v.N = "jump", t.addpc
+		case GotoInstr:
+			v.Op, v.N = "goto", t.location
+		case BranchInstr:
+			v.Op, v.N, v.B = "branch", t.location, t.direction
+		case PushInstr:
+			v.Op = "push"
+			if t.expr == SexpMarker {
+				v.Op = "pushmarker"
+			}
+		case PushLazyArgInstr:
+			v.Op = "pushlazy"
+		case PopInstr:
+			v.Op = "pop"
+		case DupInstr:
+			v.Op = "dup"
+		case EnvToStackInstr:
+			v.Op, v.Sym = "envtostack", t.sym.name
+		case PopStackPutEnvInstr:
+			v.Op, v.Sym = "popstackputenv", t.sym.name
+		case UpdateInstr:
+			v.Op, v.Sym = "update", t.sym.name
+		case CallInstr:
+			v.Op, v.Sym, v.N = "call", t.sym.name, t.nargs
+		case CallExprInstr:
+			v.Op, v.N = "callexpr", len(t.args)
+		case DispatchInstr:
+			v.Op, v.N = "dispatch", t.nargs
+		case ReturnInstr:
+			v.Op = "return"
+			if t.err != nil {
+				v.Op = "returnerr"
+			}
+		case AddScopeInstr:
+			v.Op = "addscope"
+		case AddFuncScopeInstr:
+			v.Op = "addfuncscope"
+		case RemoveScopeInstr:
+			v.Op = "removescope"
+		case ExplodeInstr:
+			v.Op = "explode"
+		case SquashInstr:
+			v.Op = "squash"
+		case BindlistInstr:
+			v.Op, v.N = "bindlist", len(t.syms)
+		case VectorizeInstr:
+			v.Op = "vectorize"
+		case HashizeInstr:
+			v.Op = "hashize"
+		case LabelInstr:
+			v.Op = "label"
+		case *BreakInstr:
+			v.Op, v.N, v.Off, v.Loop = "break", t.scopesToPop, t.loop.breakOffset, t.loop.stmtname.name
+		case *ContinueInstr:
+			v.Op, v.N, v.Off, v.Loop = "continue", t.scopesToPop, t.loop.continueOffset, t.loop.stmtname.name
+		case LoopStartInstr:
+			v.Op, v.Loop = "loopstart", t.loop.stmtname.name
+		case PushStackmarkInstr:
+			v.Op, v.Sym = "pushmark", t.sym.name
+		case PopUntilStackmarkInstr:
+			v.Op, v.Sym = "popuntilmark", t.sym.name
+		case ClearStackmarkInstr:
+			v.Op, v.Sym = "clearmark", t.sym.name
+		case DebugInstr:
+			v.Op = "debug"
+		case CreateClosureInstr:
+			v.Op = "createclosure"
+			v.Sub = verifListing(t.sfun, seen)
+		case AssignInstr:
+			v.Op = "assign"
+		case PopScopeTransferToDataStackInstr:
+			v.Op = "popscopetodata"
+		case PrepareCallInstr:
+			v.Op, v.Sym, v.N = "precall", t.sym.name, t.nargs
+		default:
+			v.Op = "unknown"
+		}
+		_ = i
+		l.Instrs = append(l.Instrs, v)
+	}
+	return l
+}
